@@ -290,3 +290,25 @@ impl StackFrame {
     { unimplemented!() }
 }
 pub struct TailOutcome { pub ctx: ExecuteContext, pub calls: VmIndex }
+
+// ---- GetOffset arm
+pub struct DataView { pub fields: Vec<Value> }
+pub enum PoppedRepr { Data(DataView), Other }
+pub uninterp spec fn is_data(v: Value) -> bool;             // any data value (record / variant with fields)
+pub uninterp spec fn fields_of(v: Value) -> Seq<Value>;
+impl Value {
+    // `.get_repr()` on a popped value, looked at only as "data with these fields" or "something else"
+    #[verifier::external_body]
+    pub fn get_repr(&self) -> (r: PoppedRepr)
+        ensures r is Data == is_data(*self), r is Data ==> r->Data_0.fields@ == fields_of(*self)
+    { unimplemented!() }
+}
+impl StackFrame {
+    // push of a borrowed Value (StackPrimitive for &Value: copies it)
+    #[verifier::external_body]
+    pub fn push_ref(&mut self, v: &Value)
+        ensures final(self).stack.values@ == old(self).stack.values@.push(*v),
+                final(self).stack.frames@ == old(self).stack.frames@, final(self).frame == old(self).frame,
+                final(self).stack.max_stack_size == old(self).stack.max_stack_size,
+    { unimplemented!() }
+}
